@@ -365,7 +365,8 @@ theorem formationCore_cover {ps : List Proto} {wrap : Option Int} {cs : List Can
                 · exact fin p (b3 p (b2 p (a1 g hg p hpg)))
                 · rcases findInterleaved_cover hI p hun1 with ⟨g, hg, hpg⟩ | hun2 | ⟨c, hc, hpc⟩
                   · exact fin p (b3 p (a2 g hg p hpg))
-                  · have hl : p ∈ dedup (un2 ++ t3.singles) := mem_dedup.2 (List.mem_append.2 (Or.inl hun2))
+                  · have hl : p ∈ sortProtos (dedup (un2 ++ t3.singles)) :=
+                      mem_sortProtos.2 (mem_dedup.2 (List.mem_append.2 (Or.inl hun2)))
                     rcases addSingles_cover hS p hl with ⟨c, hc, hpc⟩ | hcov
                     · exact ⟨c, List.mem_append.2 (Or.inr hc), hpc⟩
                     · exact fin p hcov
